@@ -21,6 +21,8 @@ KV == {Node("kv", "", <<k, v>>) : k \in HReps, v \in Reps}
 Dicts1 == {Node("dict", "", e) : e \in {s \in SeqsUpTo(KV, 2) : Len(s) < 2 \/ s[1].e[1] # s[2].e[1]}}
 Objs1 == {Node("obj", "Point", <<x, y>>) : x \in Reps, y \in {Atom("str", "a"), Atom("none", ""), Node("list", "", <<Atom("int", "1")>>)}}
          \cup {Node("obj", "Empty", <<>>)}
+         \* a subclass that adds a field to a Serializable base class: all three fields belong to the value
+         \cup {Node("obj", "Player", <<x, y, z>>) : x \in {Atom("int", "128"), Atom("none", "")}, y \in {Atom("str", "a"), Atom("str", "multibyte")}, z \in {Atom("int", "-1"), Atom("float", "0.1")}}
          \* fields annotated as containers: None, the empty container and a filled one are three different values, in every position
          \cup {Node("obj", "Bag", <<x, y>>) : x \in {Atom("none", ""), Node("list", "", <<>>), Node("list", "", <<Atom("int", "1")>>)},
                                               y \in {Atom("none", ""), Node("dict", "", <<>>), Node("dict", "", <<Node("kv", "", <<Atom("str", "a"), Atom("int", "1")>>)>>)}}
